@@ -271,7 +271,7 @@ impl Prop for Equiv {
             }
             EquivAny::HugeFan(h)
         });
-        prop_oneof![6000 => small, 20 => composite, 1 => huge].boxed()
+        prop_oneof![6000 => small, 20 => composite, 2 => huge].boxed()
     }
     fn n_cases(&self, tier: Tier) -> u32 {
         tier.pick(2_000_000, 20_000_000)
